@@ -158,6 +158,12 @@ Case gen() {
   double R = G::oneOf(std::vector<double>{100, 1000, 1000, 1e5, 1e7});
   bool outerPositive = G::coin();
   Paths64 poly = OFS::polyWithHoles(R, outerPositive);
+  if (G::chance(2)) {
+    // large: one ring of 80-250 vertices (offset outlines and unions with hundreds of vertices: size-dependent behaviour)
+    R = 1e5;
+    poly = {GEN::ring((int)G::range(80, 250), G::sym(1000), G::sym(1000), 0.995 * R, R, outerPositive)};
+    ST.count(OFS::validSimple(poly, 10.0) ? "large_ring_in_domain" : "large_ring_discarded");
+  }
   c.p["poly"] = poly;
   int cls = (int)G::range(0, 3);
   double ad = cls == 0 ? G::real(0.1, 0.49) : cls == 1 ? G::real(0.5, 5) : cls == 2 ? G::real(5, 0.3 * R) : G::real(0.3 * R, 2 * R);
